@@ -614,4 +614,33 @@ theorem mainInv_step (s : State) (e : Ev) (s' : State) (h : MainInv ts s)
       exact ⟨hc.1, hb.symm⟩
     · cases hst
 
+/-! ## every reachable state satisfies the three invariants -/
+
+theorem reachable_inv (es : List Ev) (s : State) (h : (sys ts).run (sys ts).init es = some s) :
+    LogInv ts s ∧ OrderInv ts s ∧ MainInv ts s :=
+  ⟨(sys ts).invariant (LogInv ts) (logInv_init ts) (logInv_step ts) es s h,
+   (sys ts).invariant (OrderInv ts) (orderInv_init ts) (orderInv_step ts) es s h,
+   (sys ts).invariant (MainInv ts) (mainInv_init ts) (mainInv_step ts) es s h⟩
+
+/-! ## the folds of `TestLauncher::execute` -/
+
+theorem foldl_comparisons (g : Bool) (l : List Bool) :
+    l.foldl (fun g ok => if g == false then false else ok) g = (g && l.all id) := by
+  induction l generalizing g with
+  | nil => simp
+  | cons a l ih =>
+    simp only [List.foldl_cons, List.all_cons, id]
+    rw [ih]
+    cases g <;> simp
+
+theorem foldl_commands (d e : Bool) (g : Bool) (l : List Cmd) :
+    l.foldl (fun g cmd => if cmd.success then g else if !d then false else if e then false else g) g =
+      (g && l.all (fun cmd => cmd.success || (d && !e))) := by
+  induction l generalizing g with
+  | nil => simp
+  | cons a l ih =>
+    simp only [List.foldl_cons, List.all_cons]
+    rw [ih]
+    cases a.success <;> cases d <;> cases e <;> cases g <;> simp
+
 end TfelVerif.C52
